@@ -365,6 +365,21 @@ func (p *Pruner) onNewBlock(ctx context.Context, block *core.Block) error {
 		return nil
 	}
 
+	// The event may be stale: the feed buffers one event per subscriber, so a
+	// block that has been reverted since it was published can still arrive
+	// here. Pruning up to a block that is above the current head would delete
+	// the head itself (and raise the shared retention floor above it).
+	chainHeight, err := core.GetChainHeight(p.database)
+	if err != nil {
+		if errors.Is(err, db.ErrKeyNotFound) {
+			return nil
+		}
+		return err
+	}
+	if block.Number > chainHeight {
+		return nil
+	}
+
 	p.pendingL2Heads++
 	if p.pendingL2Heads < p.l2HeadsPerPrune {
 		return nil
